@@ -14,9 +14,18 @@ import (
 // Main is the shared body of harness/cmd/c02 and harness/cmd/c03.
 func Main(prop string, gen func(r *vh.Rand, i int) *Scenario, probes func() []*Scenario) {
 	f := vh.ParseFlags()
+	if abs, err := filepath.Abs(f.Out); err == nil {
+		f.Out = abs
+	}
 	o := vh.NewOut(f.Out)
 	defer o.Close()
 	work := filepath.Join(f.Out, "build")
+	// The compiler's importer runs `go list` in the current directory: give it a module that
+	// requires the tree under test (so that github.com/qiniu/x/errors resolves offline).
+	if err := ImporterDir(filepath.Join(f.Out, "imp")); err != nil {
+		fmt.Fprintln(os.Stderr, "harness:", err)
+		os.Exit(3)
+	}
 	var scs []*Scenario
 	ident := map[string]string{}
 	if f.Replay != "" {
@@ -26,7 +35,7 @@ func Main(prop string, gen func(r *vh.Rand, i int) *Scenario, probes func() []*S
 		if strings.HasPrefix(id, "probe:") {
 			for _, p := range probes() {
 				if p.Name == strings.TrimPrefix(id, "probe:") {
-					runProbe(o, work, p)
+					runProbes(o, work, []*Scenario{p})
 				}
 			}
 			return
@@ -49,6 +58,22 @@ func Main(prop string, gen func(r *vh.Rand, i int) *Scenario, probes func() []*S
 			ident[sc.Name] = fmt.Sprintf("%d:%d", f.Seed, i)
 		}
 	}
+	const batch = 150
+	for b := 0; b < len(scs); b += batch {
+		e := b + batch
+		if e > len(scs) {
+			e = len(scs)
+		}
+		runBatch(o, work, scs[b:e], ident)
+	}
+	if probes != nil && f.Replay == "" {
+		runProbes(o, work, probes())
+	}
+	os.RemoveAll(work)
+	os.RemoveAll(filepath.Join(f.Out, "imp"))
+}
+
+func runBatch(o *vh.Out, work string, scs []*Scenario, ident map[string]string) {
 	res, err := BuildAndRun(work, scs, 60*time.Second)
 	if err != nil {
 		fmt.Fprintln(os.Stderr, "harness:", err)
@@ -59,7 +84,11 @@ func Main(prop string, gen func(r *vh.Rand, i int) *Scenario, probes func() []*S
 	}
 	norm := NormalizeGo(res.GoText)
 	for _, sc := range scs {
-		line := "mini\t" + sc.Prog.SExp() + "\t" + ident[sc.Name]
+		op := "mini"
+		if sc.NoOracle {
+			op = "minilow" // outside the property's reading: the model of the lowering only
+		}
+		line := op + "\t" + sc.Prog.SExp() + "\t" + ident[sc.Name]
 		impl, ok := res.X[sc.Name]
 		switch {
 		case res.CompileErr[sc.Name] != "":
@@ -97,37 +126,34 @@ func Main(prop string, gen func(r *vh.Rand, i int) *Scenario, probes func() []*S
 			o.Case("minigo\t"+sc.Prog.SExp()+"\t"+ident[sc.Name], norm.Funcs(names), false)
 		}
 	}
-	if probes != nil && f.Replay == "" {
-		for _, p := range probes() {
-			runProbe(o, work, p)
-		}
-	}
-	os.RemoveAll(work)
 }
 
-// runProbe compiles/builds/runs one scenario on its own.
-func runProbe(o *vh.Out, work string, p *Scenario) {
-	line := "minic\t" + p.Prog.SExp() + "\tprobe:" + p.Name
-	res, err := BuildAndRun(work, []*Scenario{p}, 30*time.Second)
-	impl := "accept"
-	switch {
-	case err != nil:
-		impl = "HARNESS-ERROR " + err.Error()
-	case res.CompileErr[p.Name] != "":
-		impl = "reject"
-		o.Oracle(p.Note+"-rejected-by-compiler", line, res.CompileErr[p.Name])
-	case res.GoErr[p.Name] != "":
-		impl = "reject"
-		o.Oracle(p.Note+"-output-is-not-valid-go", line, res.GoErr[p.Name])
-	case res.BuildErr != "":
-		impl = "HARNESS-ERROR " + lastLine(res.BuildErr)
-	default:
-		if res.X[p.Name] != res.G[p.Name] {
-			o.Oracle(p.Note+"-differs-from-documented-expansion", line, "compiled="+res.X[p.Name]+" expansion="+res.G[p.Name])
+// runProbes: each probe is first compiled on its own (cheap); the accepted ones are built and
+// run together (BuildAndRun attributes go build errors to single scenarios and retries once).
+func runProbes(o *vh.Out, work string, ps []*Scenario) {
+	res, err := BuildAndRun(work, ps, 30*time.Second)
+	for _, p := range ps {
+		line := "minic\t" + p.Prog.SExp() + "\tprobe:" + p.Name
+		impl := "accept"
+		switch {
+		case err != nil:
+			impl = "HARNESS-ERROR " + err.Error()
+		case res.CompileErr[p.Name] != "":
+			impl = "reject"
+			o.Oracle(p.Note+"-rejected-by-compiler", line, res.CompileErr[p.Name])
+		case res.GoErr[p.Name] != "":
+			impl = "reject"
+			o.Oracle(p.Note+"-output-is-not-valid-go", line, res.GoErr[p.Name])
+		case res.BuildErr != "":
+			impl = "HARNESS-ERROR " + lastLine(res.BuildErr)
+		default:
+			if res.X[p.Name] != res.G[p.Name] || res.X[p.Name] == "" {
+				o.Oracle(p.Note+"-differs-from-documented-expansion", line, "compiled="+res.X[p.Name]+" expansion="+res.G[p.Name])
+			}
 		}
+		o.Count("probe_" + strings.Fields(impl)[0])
+		o.Case(line, impl, true)
 	}
-	o.Count("probe_" + impl)
-	o.Case(line, impl, true)
 }
 
 func lastLine(s string) string {
